@@ -265,7 +265,11 @@ class AllFixedSizeElementLocator : public BaseAllFixedSizeElementLocator
     using FixedSizesArray = typename detail::ParameterListTraits<Parameter...>::FixedSizesArray;
 
   public:
-    AllFixedSizeElementLocator() = default;
+    // a default-constructed vector has all fixed sizes zero; its elements still have a stride
+    constexpr AllFixedSizeElementLocator() noexcept
+        : BaseAllFixedSizeElementLocator({}, ElementTraits::calculate_element_size(FixedSizesArray{}).stride)
+    {
+    }
 
     template <class Allocator>
     constexpr AllFixedSizeElementLocator(std::size_t, std::byte*, ElementSize element_stride, const Allocator&) noexcept
